@@ -321,6 +321,9 @@ func (cr *clRun) run(dir string) {
 	}
 	cr.res.SimNanos = int64(w.Now())
 	cr.res.Steps = w.Steps
+	for k, v := range w.Probes() {
+		cr.res.Stats[k] += int64(v)
+	}
 	cr.res.Shape = hashStrings(cr.shape)
 	cr.res.Nontrivial = cr.mutations > 0 && cr.compares > 0
 	cr.res.TraceHash = hashTrace(w.Trace)
